@@ -85,30 +85,51 @@ Record conn := {
   k_sent : bytes;
   k_recvd : bytes;
   taken : bytes;
-  wlog : list (dir * bytes) }.
+  wlog : list (dir * bytes);
+  wl_now : option (bool * bool);   (* Some (txed, rxed) once the attached WireLog was reconfigured / closed *)
+  lg_tx : bytes;                   (* ghost: bytes sent while tx logging was enabled *)
+  lg_rx : bytes }.                 (* ghost: bytes received while rx logging was enabled *)
 
 Definition init (conn0 : bool) : conn :=
   {| connected := conn0; cutoff := false; txbs := []; rxbs := [];
-     k_sent := []; k_recvd := []; taken := []; wlog := [] |}.
+     k_sent := []; k_recvd := []; taken := []; wlog := []; wl_now := None; lg_tx := []; lg_rx := [] |}.
 
 Definition set_connected (s : conn) (b c : bool) : conn :=
   {| connected := b; cutoff := c; txbs := txbs s; rxbs := rxbs s;
-     k_sent := k_sent s; k_recvd := k_recvd s; taken := taken s; wlog := wlog s |}.
+     k_sent := k_sent s; k_recvd := k_recvd s; taken := taken s; wlog := wlog s;
+     wl_now := wl_now s; lg_tx := lg_tx s; lg_rx := lg_rx s |}.
 Definition cut (s : conn) : conn := set_connected s (connected s) true.
 Definition set_txbs (s : conn) (b : bytes) : conn :=
   {| connected := connected s; cutoff := cutoff s; txbs := b; rxbs := rxbs s;
-     k_sent := k_sent s; k_recvd := k_recvd s; taken := taken s; wlog := wlog s |}.
+     k_sent := k_sent s; k_recvd := k_recvd s; taken := taken s; wlog := wlog s;
+     wl_now := wl_now s; lg_tx := lg_tx s; lg_rx := lg_rx s |}.
 Definition set_rx (s : conn) (b t : bytes) : conn :=
   {| connected := connected s; cutoff := cutoff s; txbs := txbs s; rxbs := b;
-     k_sent := k_sent s; k_recvd := k_recvd s; taken := t; wlog := wlog s |}.
-Definition log_on (c : cfg) (d : dir) : bool := match d with DTx => wl_tx c | DRx => wl_rx c end.
-(* the kernel moved chunk b in direction d: ghost stream and (if attached) wire log record *)
+     k_sent := k_sent s; k_recvd := k_recvd s; taken := t; wlog := wlog s;
+     wl_now := wl_now s; lg_tx := lg_tx s; lg_rx := lg_rx s |}.
+(* WireLog.close() (both off) / .reopen(rxed=, txed=, samed=) while attached *)
+Definition set_wl (s : conn) (t r : bool) : conn :=
+  {| connected := connected s; cutoff := cutoff s; txbs := txbs s; rxbs := rxbs s;
+     k_sent := k_sent s; k_recvd := k_recvd s; taken := taken s; wlog := wlog s;
+     wl_now := Some (t, r); lg_tx := lg_tx s; lg_rx := lg_rx s |}.
+(* is direction d logged right now *)
+Definition log_on (c : cfg) (s : conn) (d : dir) : bool :=
+  match wl_now s, d with
+  | Some (t, _), DTx => t
+  | Some (_, r), DRx => r
+  | None, DTx => wl_tx c
+  | None, DRx => wl_rx c
+  end.
+(* the kernel moved chunk b in direction d: ghost stream and (if enabled) wire log record *)
 Definition moved (c : cfg) (d : dir) (b : bytes) (s : conn) : conn :=
   {| connected := connected s; cutoff := cutoff s; txbs := txbs s; rxbs := rxbs s;
      k_sent := match d with DTx => k_sent s ++ b | DRx => k_sent s end;
      k_recvd := match d with DRx => k_recvd s ++ b | DTx => k_recvd s end;
      taken := taken s;
-     wlog := if log_on c d then wlog s ++ [(d, b)] else wlog s |}.
+     wlog := if log_on c s d then wlog s ++ [(d, b)] else wlog s;
+     wl_now := wl_now s;
+     lg_tx := match d with DTx => if log_on c s DTx then lg_tx s ++ b else lg_tx s | DRx => lg_tx s end;
+     lg_rx := match d with DRx => if log_on c s DRx then lg_rx s ++ b else lg_rx s | DTx => lg_rx s end |}.
 
 (* ---- kernel answers ---- *)
 Inductive sres := SAccept (n : nat) | SFail (e : N).
@@ -190,6 +211,7 @@ Inductive op :=
 | SvcRecvOnce (k : rres)                 (* .serviceReceiveOnce() *)
 | Service (k : sres) (ks : list rres)    (* Client.service(): sends then receives; remoters: receives then sends as Server.service does *)
 | TakeRx                                 (* application consumes: .clearRxbs() *)
+| WlSet (t r : bool)                     (* the attached WireLog is closed (false false) or reopened with txed=t rxed=r *)
 | Connect.                               (* client: serviceConnect() with a succeeding connect (and handshake) *)
 
 Definition step (c : cfg) (s : conn) (o : op) : conn * res unit * nat :=
@@ -210,6 +232,7 @@ Definition step (c : cfg) (s : conn) (o : op) : conn * res unit * nat :=
       | x => x
       end
   | TakeRx => (set_rx s [] (taken s ++ rxbs s), Ok tt, 0)
+  | WlSet t r => (set_wl s t r, Ok tt, 0)
   | Connect =>
     if is_client (kd c) && negb (connected s) then (set_connected s true false, Ok tt, 0)
     else (s, Ok tt, 0)
@@ -300,6 +323,7 @@ Definition branch_of (c : cfg) (s : conn) (o : op) : list nat :=
   | SvcRecvOnce k => if gate c s then [16; recv_end c [k]] else [9]
   | Service k ks => [17; send_branch c s k]
   | TakeRx => [18]
+  | WlSet _ _ => [21]
   | Connect => if is_client (kd c) && negb (connected s) then [19] else [20]
   end.
 
@@ -308,6 +332,6 @@ Fixpoint branches (c : cfg) (s : conn) (ops : list op) : list nat :=
   | [] => []
   | o :: ops' => branch_of c s o ++ branches c (st (step c s o)) ops'
   end.
-Definition n_branches : nat := 21.
+Definition n_branches : nat := 22.
 Definition case_branches (x : case) : list nat :=
   branches (c_cfg x) (init (c_conn0 x)) (c_ops x).
